@@ -541,6 +541,11 @@ func (p *nriPlugin) UpdateContainer(ctx context.Context, pod *api.PodSandbox, co
 		return nil, nil
 	}
 
+	if state := c.GetState(); state != cache.ContainerStateCreated && state != cache.ContainerStateRunning {
+		nri.Warn("UpdateContainer for %s which is not created or running, ignoring it...", c.PrettyName())
+		return nil, nil
+	}
+
 	if realUpdates := c.SetResourceUpdates(res); !realUpdates {
 		nri.Warn("UpdateContainer with identical resources, short-circuiting it...")
 		if v := c.GetCPUShares(); v != 0 {
